@@ -14,7 +14,8 @@ from .. import core, concretise, probe as probemod
 O_FAMILY = ["é", "😀", "\\", "'", "\t", "#", ":", "{", "}", ",", "/", "*", "&", "日", " ", "\x01", "`", "=", "<"]
 REF_VALUES = [("int", 5), ("string", "sv"), ("bool", True), ("nil", None), ("float64", 1.5), ("uint64", 18446744073709551615), ("string", ""),
               ("float64", 3.0), ("int", -7), ("float64", -40.0), ("bool", False), ("float64", 1000.0), ("int", 0), ("float64", 0.0),
-              ("string", "7"), ("string", "true"), ("string", "multi\nline \"q\" \\ */ // `")]
+              ("string", "7"), ("string", "true"), ("string", "multi\nline \"q\" \\ */ // `"),
+              ("int", 7), ("string", "1.5"), ("string", "<nil>"), ("string", "5"), ("string", "3"), ("string", "false"), ("string", "0")]
 FN_DEFS = {"a": "fx.Fn", "aa": "fx.FnInt", "a7": "fx.FnE"}
 
 
@@ -135,6 +136,11 @@ def run_c03(tier):
         params = {"q%d" % i: it.text for i, it in enumerate(batch)}
         for n, (t, val) in decl.items():
             params[n] = val
+        if with_service is not None:
+            # every literal kind side by side (values that print alike and differ in type included), directly and through a reference
+            for li, (t, val) in enumerate(REF_VALUES):
+                params["zlit%d" % li] = val
+                params["zref%d" % li] = "%%zlit%d%%" % li
         doc = {"meta": meta, "parameters": params}
         if with_service:
             doc["services"] = {"s1": {"constructor": "fx.NewA", "arguments": [batch[i].text for i in with_service], "tags": ["dt"]}}
@@ -196,6 +202,28 @@ def run_c03(tier):
                                                                                    "errors": core.Report(rs["stdout"]).errors[:3]})
         elif it.verdict == "ok":
             tool_ok.append(it)
+    # ---- phase A': strings whose tokens contain line breaks or tabs (outside the symbol alphabet of the quick bound): a token never
+    # spans lines (Pattern.tla: IsFnShape excludes NL between the parentheses, a reference is a YamlToken), so every one is rejected
+    broken_tokens = ['%a(\n)%', '%a("x",\n"y")%', 'x%a(1,\n2)%y', '%a("x"\r\n)%', '%a\n%', '%a\nb%', '%\na%', '%a(\n', '%todo(\n"later")%',
+                     '%env("X",\n"d")%', '%envInt(\n"X")%', '%a\t%', '%a b%']
+    pool = core.DriverPool()
+    try:
+        bj = []
+        for bi, txt in enumerate(broken_tokens):
+            d = os.path.join(wd, "b%03d" % bi)
+            os.makedirs(d)
+            doc = {"meta": meta, "parameters": {"a": 1, "b": 2, "q": txt}, "services": {"s1": {"constructor": "fx.NewA", "arguments": [txt]}}}
+            with open(os.path.join(d, "in.yaml"), "w") as f:
+                f.write(concretise.emit(doc, rng) + "\n")
+            bj.append({"id": bi, "dir": d, "args": ["-i", "in.yaml", "-o", "out.go"], "version": "dev-main", "buildinfo": "verif", "out": "out.go"})
+        bres = pool.run_all(bj)
+    finally:
+        pool.close()
+    for txt, rs in zip(broken_tokens, bres):
+        if rs["exit"] == 0:
+            v.disagree("build-time-verdict", {"string": txt}, {"model": "reject", "tool_rejects": False})
+        elif rs["exit"] != 1:
+            v.disagree("abnormal-exit", {"string": txt}, {"exit": rs["exit"], "panic": rs.get("panic", "")[:300]})
     # ---- phase B: values of accepted strings
     n_eval = 0
     if tool_ok:
@@ -233,6 +261,7 @@ def run_c03(tier):
             if name not in good:
                 continue              # C01's business
             ops = [{"op": "GetParam", "id": "q%d" % i} for i in range(len(ebatches[bi]))] + [{"op": "Get", "id": "s1"}]
+            ops += [{"op": "GetParam", "id": "z%s%d" % (w, li)} for li in range(len(REF_VALUES)) for w in ("lit", "ref")]
             scripts.append({"id": bi, "pkg": name, "ops": ops})
         out = pb.run(scripts)
         for bi in live:
@@ -253,6 +282,12 @@ def run_c03(tier):
                 got = observed_lit(o["ok"])
                 if got != want and not (want[0] == "float64" and got[0] == "float64" and abs(got[1] - want[1]) < 1e-9):
                     v.disagree("evaluated-value", {"string": it.text, "symbols": it.sym}, {"expected": want, "observed": got})
+            for li, want in enumerate(REF_VALUES):
+                for wi, w in enumerate(("lit", "ref")):
+                    o = rr["res"][len(batch) + 1 + 2 * li + wi]
+                    got = observed_lit(o["ok"]) if "ok" in o else ("error", o.get("err"))
+                    if got != tuple(want) and not (want[0] == "float64" and got[0] == "float64" and abs(got[1] - want[1]) < 1e-9):
+                        v.disagree("evaluated-value", {"string": "z%s%d" % (w, li), "literal": want}, {"expected": want, "observed": got})
             # as service arguments
             so = rr["res"][len(batch)]
             if "ok" in so:
@@ -322,12 +357,17 @@ def env_cases(v, table, wd, rng):
     expect["f1"] = ("error", '%fnE("fail")%')
     params["f2"] = 'x-%fnE("fail")%-y'
     expect["f2"] = ("error", '%fnE("fail")%')
+    # a function with typed parameters: untyped constants are converted to the parameter types
+    params["ty1"] = '%fnT(5, 7, 2, "x")%'
+    expect["ty1"] = ("string", "5ns|7|2|x|[]")
+    params["ty2"] = 'v=%fnT(1000000000, 0, 1.5, "a b", 3, 4)%;'
+    expect["ty2"] = ("string", "v=1s|0|1.5|a b|[3 4];")
     params["t1"] = "%todo()%"
     expect["t1"] = ("error", "parameter todo")
     params["t2"] = '%todo("later")%'
     expect["t2"] = ("error", "later")
     # a function registered under the name of a built-in replaces it (docs/META.md: functions: {"env": "os.Getenv"})
-    doc = {"meta": {"imports": {"fx": "probe.test/fx"}, "functions": {"fnE": "fx.FnE"}}, "parameters": params}
+    doc = {"meta": {"imports": {"fx": "probe.test/fx"}, "functions": {"fnE": "fx.FnE", "fnT": "fx.FnT"}}, "parameters": params}
     doc2 = {"meta": {"imports": {"fx": "probe.test/fx"}, "functions": {"env": "fx.Fn", "todo": "fx.FnInt"}},
             "parameters": {"o1": '%env("VERIF_E0")%', "o2": "%todo()%", "o3": '%envInt("VERIF_UNSET_X", 3)%'}}
     expect2 = {"o1": ("string", 'probe.test/fx.Fn("VERIF_E0")'), "o2": ("int", 40), "o3": ("int", 3)}
